@@ -490,3 +490,109 @@ func checkTopRowIsARow(p *Program, r *Report, rule string) {
 	}
 	r.Floor(rule, "comparisons of a row with a forest height", n, 8)
 }
+
+// ---------------------------------------------------------------------------
+// R08j ROWS-NOT-SMALLER-THAN-THE-COUNT'S. A forest is described to the
+// position functions by a leaf count and a height. The height may be that of
+// the count, or a larger layout (the allocated rows, the rows after the
+// additions); it can never be the height of a *smaller* forest: a call that
+// passes the count n together with TreeRows(n - k) reads the roots of the
+// n-leaf forest in a layout that cannot hold them. (Passing n - k with
+// TreeRows(n) is fine: positions of the smaller forest in the larger layout.)
+
+func checkRowsNotSmallerThanCounts(p *Program, r *Report, rule string) {
+	rowsFn := p.Func("TreeRows")
+	if rowsFn == nil {
+		r.MissingAnchor(rule, "TreeRows", "row function not found")
+		return
+	}
+	lc := leafCountParams(p)
+	hp := heightParams(p)
+	// the argument of the TreeRows call a height value was computed by (through one local variable)
+	var rowsArg func(v ssa.Value, d int) ssa.Value
+	rowsArg = func(v ssa.Value, d int) ssa.Value {
+		if d > 4 {
+			return nil
+		}
+		switch x := v.(type) {
+		case *ssa.Call:
+			if x.Common().StaticCallee() == rowsFn && len(x.Common().Args) == 1 {
+				return x.Common().Args[0]
+			}
+		case *ssa.Convert:
+			return rowsArg(x.X, d+1)
+		case *ssa.UnOp:
+			if al, ok := x.X.(*ssa.Alloc); ok {
+				var only ssa.Value
+				for _, ref := range *al.Referrers() {
+					if st, ok := ref.(*ssa.Store); ok && st.Addr == ssa.Value(al) {
+						if only != nil {
+							return nil
+						}
+						only = st.Val
+					}
+				}
+				return rowsArg(only, d+1)
+			}
+		}
+		return nil
+	}
+	n := 0
+	for _, fn := range p.Funcs {
+		if fn.Blocks == nil {
+			continue
+		}
+		idx := 0
+		for _, sc := range callsIn(p, fn) {
+			callee := sc.call.Common().StaticCallee()
+			if callee == nil || callee.Pkg != p.SSA || callee == rowsFn {
+				continue
+			}
+			args := sc.call.Common().Args
+			if len(args) != len(callee.Params) {
+				continue
+			}
+			// only callees that describe ONE forest: exactly one leaf count and exactly one height
+			// (a helper that takes two heights translates between layouts)
+			nCount, nHeight := 0, 0
+			for _, q := range callee.Params {
+				if lc[q] {
+					nCount++
+				}
+				if hp[q] || (isUint8(q.Type()) && strings.Contains(strings.ToLower(q.Name()), "rows")) {
+					nHeight++
+				}
+			}
+			if nCount != 1 || nHeight != 1 {
+				continue
+			}
+			for i, pi := range callee.Params {
+				if !lc[pi] {
+					continue
+				}
+				for j, pj := range callee.Params {
+					if !hp[pj] && !(isUint8(pj.Type()) && strings.Contains(strings.ToLower(pj.Name()), "rows")) {
+						continue
+					}
+					x := rowsArg(args[j], 0)
+					if x == nil {
+						continue
+					}
+					idx++
+					n++
+					key := fmt.Sprintf("%s->%s#%d/count-and-rows", p.FuncName(fn), p.FuncName(callee), idx)
+					smaller := false
+					if bo, ok := x.(*ssa.BinOp); ok && bo.Op == token.SUB && sameArith(bo.X, args[i]) {
+						smaller = true
+					}
+					if smaller {
+						r.Violate(rule, key, posOf(p, sc.call), "the call describes a forest by the leaf count n together with the height of a smaller forest, TreeRows(n - k): the roots and positions of the n-leaf forest do not fit that layout (passing n - k with TreeRows(n) would be fine)", "in "+p.FuncName(fn))
+					} else {
+						r.Discharge(rule, key, posOf(p, sc.call), "the height handed over with the leaf count is not that of a smaller forest", true)
+					}
+				}
+			}
+		}
+	}
+	r.Floor(rule, "calls that pass a leaf count together with a TreeRows height", n, 8)
+}
